@@ -494,5 +494,17 @@ pub fn is_p6_encoding_of(stored: &[u8], w: u32, h: u32, px: &[[u8; 3]]) -> Resul
             ));
         }
     }
+    // A binary PPM of a w x h image is its header and exactly 3*w*h raster bytes. Whatever
+    // follows was not part of the image that was handed over (pixels of the parent buffer
+    // outside the view, a stale tail of a scratch buffer): it is not "this image as binary
+    // PPM", and a reader of the stream takes it for the start of a further image.
+    if raster.len() > 3 * px.len() {
+        return Err(format!(
+            "{} surplus bytes follow the {} raster bytes of the {w}x{h} image (first: {:?})",
+            raster.len() - 3 * px.len(),
+            3 * px.len(),
+            &raster[3 * px.len()..raster.len().min(3 * px.len() + 6)]
+        ));
+    }
     Ok(())
 }
